@@ -60,6 +60,10 @@ CLAIMED["C19"] = dict(cat="exploration",
    text="Seeded simulation of two worlds fed the same program (backup, forget, repacking prune, check +/- read-data, full read-back, get a snapshot by full id): in one world operations alternate between a handle with a cache directory on tmpfs and an uncached handle on the same SimStore, with cache faults planted between operations (truncated/extended/deleted entries, entries for unknown ids, non-hex names, -tmp- leftovers, a foreign repository directory); in the other every operation is uncached. Per operation the Ok/Err class and the logical result (snapshot trees, check verdict, read-back verdict) must agree, both worlds must end readable and check-clean, and after a listing through the cached handle the cache must hold no snapshot/index entry that the store lacks or that has another size.",
    ref="5 C19", note="File ids differ between the worlds, so results are compared logically. The cache directory is real tmpfs.",
    tech="deterministic simulation: twin-world differential execution with planted cache states")
+CLAIMED["C20"] = dict(cat="exploration",
+   text="Seeded simulation: sequences of 20-200 write / read_full / read_partial (16 range classes incl. zero-length, past-end, offset+length at and above 2^32) / list / list_with_size / remove operations over all file types, ids sharing a shard, contents of 0 B..4 MiB with boundary lengths and multi-piece (also empty-piece) BytesLists, executed in lock step on the real LocalBackend (tmpfs), OpenDALBackend on the fs service and on the memory service, each against a map model, with second handles auditing after every mutation; directory targets with planted foreign files (non-hex, wrong length, upper-case hex, id names in wrong shard / sub-directory, -tmp- leftovers, directories); on LocalBackend the pre-publish hook observes every write (temp file complete, id not listed / listed with the old size, old version readable) and interrupts about half of them (Err, nothing listed or readable, retry succeeds); calls that never return are detected by CPU-time accounting.",
+   ref="5 C20", note="Concurrent writers of one id are not exercised. rclone/rest backends need external programs and are outside 'can run locally' here. Built by a sub-agent, reviewed and integrated.",
+   tech="deterministic simulation: reference map model vs real backends on tmpfs, crash injection at the publish point, planted foreign files")
 CLAIMED["C17"] = dict(cat="exploration",
    text="Seeded simulation: generated collections of 0-6 index files (duplicates across packs and files, the same id under both types, empty packs, marked packs, packs listed normally and marked, boundary offsets/sizes), written by the simulator's own JSON writer and AEAD encoder, are loaded through the real rayon loader in all three modes (full, ids-only, trees-only) under seeded gate schedules that permute the arrival order of the index files, pool sizes 1-3; every listed id, its neighbours, pack ids, special and random ids are queried through the verif hooks and judged against a map model built from the generator's data; one load per position of a failing index read and one with a failing listing must return Err or a complete index.",
    ref="5 C17", note="Packs mixing blob types are outside the statement's domain: deviations there are counted, not flagged. The *_checked loaders are not covered.",
